@@ -260,6 +260,22 @@ impl Exec {
                 let r = guarded(std::panic::AssertUnwindSafe(|| store.annotate(b)));
                 ok_or_err(r, |h| h.as_usize().to_string())
             }
+            // `st protect text|checksum|both|auto`: AnnotationStore::protect_text
+            "protect" if t.len() == 3 => {
+                let mode = match t[2] { "text" => TextValidationMode::Text, "checksum" => TextValidationMode::Checksum, "both" => TextValidationMode::Both, _ => TextValidationMode::Auto };
+                let r = guarded(std::panic::AssertUnwindSafe(|| store.protect_text(mode)));
+                ok_or_err(r, |_| "-".into())
+            }
+            // `st annotval <id> <resource> <b> <e> text|checksum`: an annotation on resource[b..e) that already carries the
+            // validation datum (in the text-validation dataset) a protected store would hold for that text
+            "annotval" if t.len() == 7 => {
+                let (b, e): (usize, usize) = (t[4].parse().unwrap_or(0), t[5].parse().unwrap_or(0));
+                let txt: String = store.resource(t[3]).map(|r| r.text().chars().skip(b).take(e.saturating_sub(b)).collect()).unwrap_or_default();
+                let (key, val) = if t[6] == "text" { ("text", txt.clone()) } else { use sha1::{Digest, Sha1}; let mut h = Sha1::new(); h.update(txt.as_bytes()); ("checksum", h.finalize().iter().map(|x| format!("{:02x}", x)).collect::<String>()) };
+                let bld = AnnotationBuilder::new().with_id(t[2].to_string()).with_target(SelectorBuilder::textselector(t[3].to_string(), Offset::simple(b, e))).with_data("https://w3id.org/stam/extensions/stam-textvalidation/", key, val);
+                let r = guarded(std::panic::AssertUnwindSafe(|| store.annotate(bld)));
+                ok_or_err(r, |h| h.as_usize().to_string())
+            }
             "rmann" if t.len() == 3 => {
                 let r = guarded(std::panic::AssertUnwindSafe(|| match t[2].strip_prefix('#') {
                     Some(h) => store.remove_annotation(AnnotationHandle::new(h.parse().unwrap_or(usize::MAX >> 40))),
@@ -955,13 +971,14 @@ impl Gen {
     pub fn op(&mut self) -> String {
         let c = self.rng.below(100);
         if self.res.is_empty() || c < 6 {
-            let id = if !self.res.is_empty() && self.rng.chance(15) { self.res[0].0.clone() } else { format!("r{}", self.res.len()) };
+            // (sometimes an identifier that begins like a temporary identifier of its own kind without being one)
+            let id = if !self.res.is_empty() && self.rng.chance(15) { self.res[0].0.clone() } else if self.rng.chance(8) { format!("!Rome{}", self.res.len()) } else { format!("r{}", self.res.len()) };
             let n = self.rng.below(9);
             if !self.res.iter().any(|x| x.0 == id) { self.res.push((id.clone(), n)); }
             return format!("st addres {} {}", id, n);
         }
         if c < 10 {
-            let id = format!("s{}", self.rng.below(3));
+            let id = if self.rng.chance(8) { "!Sets".to_string() } else { format!("s{}", self.rng.below(3)) };
             if !self.sets.contains(&id) { self.sets.push(id.clone()); }
             if self.rng.chance(40) {
                 // a dataset that declares keys but holds no data (yet)
@@ -978,7 +995,7 @@ impl Gen {
         }
         if c < 72 {
             let id = if self.force_ids || self.rng.chance(70) {
-                if !self.anns.is_empty() && self.rng.chance(6) { self.rng.pick(&self.anns).clone() } else { format!("a{}", self.nann) }
+                if !self.anns.is_empty() && self.rng.chance(6) { self.rng.pick(&self.anns).clone() } else if self.rng.chance(6) { format!("!Alpha{}", self.nann) } else if self.rng.chance(3) { format!("!A{}x", self.nann) } else { format!("a{}", self.nann) }
             } else { "~".into() };
             let target = self.target();
             let nd = match self.rng.below(12) { 0..=2 => 0, 3..=7 => 1, 8..=9 => 2, 10 => 3, _ => 4 };
@@ -1129,7 +1146,10 @@ fn op_class(line: &str) -> String {
 }
 
 /// run one script on the implementation with every oracle; returns the answers per line
-fn run_script(rep: &mut Report, script: &[String], property: Option<&str>) -> Vec<String> {
+fn run_script(rep: &mut Report, script: &[String], property: Option<&str>) -> Vec<String> { run_script_opt(rep, script, property, true) }
+
+/// `with_model = false`: the script holds operations the Lean store model does not have (protect_text); the oracles still run
+fn run_script_opt(rep: &mut Report, script: &[String], property: Option<&str>, with_model: bool) -> Vec<String> {
     let mut ex = Exec::new();
     let mut outs = vec![];
     let mut lines: Vec<String> = vec![];
@@ -1204,7 +1224,7 @@ fn run_script(rep: &mut Report, script: &[String], property: Option<&str>) -> Ve
         outs.push(after_obs);
         lines.push("st obs".into());
     }
-    rep.model_case(lines, outs.clone(), "store");
+    if with_model { rep.model_case(lines, outs.clone(), "store"); }
     outs
 }
 
@@ -1405,6 +1425,36 @@ pub fn run(opts: &Opts) -> Report {
         rep.case(if nontrivial { Some(&key) } else { None });
         if i == 0 {
             rep.sample(json!({"script": script}));
+        }
+    }
+    // ---------- histories with protect_text (C01's quantifier): oracles only, the Lean store model has no protect_text ----------
+    {
+        let n = if opts.thorough() { 3000 } else { 400 };
+        for i in 0..n {
+            let mut g = Gen { rng: Rng::new(opts.seed.wrapping_mul(5_000_011).wrapping_add(i as u64)), rich: false, force_ids: i % 2 == 0, res: vec![], sets: vec![], keys: vec![], anns: vec![], nann: 0, data_ids: vec![], next_id: 0 };
+            let mut script: Vec<String> = vec!["st addres r0 9".into()];
+            g.res.push(("r0".into(), 9));
+            let modes = ["text", "checksum", "both", "auto"];
+            let nops = 6 + g.rng.below(14);
+            for k in 0..nops {
+                let c = g.rng.below(10);
+                if c == 0 || k == nops / 2 { script.push(format!("st protect {}", modes[g.rng.below(4)])); }
+                else if c == 1 {
+                    // an annotation that already carries the validation datum for a span (as one imported from a protected store
+                    // does), next to a plain annotation on the same text
+                    let b = g.rng.below(6); let e = b + 1 + g.rng.below(3);
+                    let kind = if g.rng.chance(50) { "text" } else { "checksum" };
+                    let first = g.rng.chance(50);
+                    let (p, v) = (format!("p{}", k), format!("v{}", k));
+                    if first { script.push(format!("st annot {} T:r0:b{}:b{}", p, b, e)); }
+                    script.push(format!("st annotval {} r0 {} {} {}", v, b, e, kind));
+                    if !first { script.push(format!("st annot {} T:r0:b{}:b{}", p, b, e)); }
+                    g.anns.push(p); g.anns.push(v); g.nann += 2;
+                } else { script.push(g.op()); }
+            }
+            run_script_opt(&mut rep, &script, property, false);
+            rep.count("protect-script");
+            rep.case(Some(&script.join("|")));
         }
     }
     // ---------- C14: annotate_from_file with a document the JSON layer refuses leaves the store as it was ----------
